@@ -87,8 +87,12 @@ qb_loop_timer_msec_duration_to_expire(struct qb_loop_source * timer_source)
 {
 	struct qb_timer_source *my_src = (struct qb_timer_source *)timer_source;
 	uint64_t left = timerlist_msec_duration_to_expire(&my_src->timerlist);
-	if (left != -1 && left > 0xFFFFFFFF) {
-		left = 0xFFFFFFFE;
+	/*
+	 * The result is used as a poll timeout (int32_t, negative means wait
+	 * for ever): clamp, the loop recalculates it after every wakeup
+	 */
+	if (left != -1 && left > INT32_MAX) {
+		left = INT32_MAX;
 	}
 	return left;
 }
